@@ -30,6 +30,7 @@ import (
 	"time"
 
 	mail "github.com/wneessen/go-mail"
+	maillog "github.com/wneessen/go-mail/log"
 	"verif/harness/hx"
 	"verif/harness/smtpx"
 )
@@ -137,10 +138,17 @@ func parseMsg(t string) (MsgSpec, error) {
 
 // DecisionString / ParseDecision: smtpx syntax plus '|' for a line break inside the text.
 func DecisionString(d smtpx.Decision) string {
+	if d.Kind == "raw" {
+		return "raw=" + strings.ReplaceAll(strings.ReplaceAll(d.Text, " ", "_"), "\n", "|")
+	}
 	return strings.ReplaceAll(d.String(), "\n", "|")
 }
 
 func ParseDecision(s string) smtpx.Decision {
+	if strings.HasPrefix(s, "raw=") {
+		// a malformed reply written verbatim, then the connection is closed
+		return smtpx.Raw(strings.ReplaceAll(strings.ReplaceAll(s[4:], "_", " "), "|", "\n"))
+	}
 	d := smtpx.ParseDecision(s)
 	d.Text = strings.ReplaceAll(d.Text, "|", "\n")
 	return d
@@ -427,6 +435,10 @@ type Result struct {
 	RetKind2 string
 	Joined2  int
 	ResetOK  string // "1" Reset returned nil, "0" an error, "-" not called
+	// the client's own view of the dialogue (go-mail debug log); HasLog is false for the program with two
+	// connections, whose log interleaves both
+	Log    []LogEntry
+	HasLog bool
 	Msgs       []MsgResult
 	Trace      []smtpx.Event
 	Commits    []smtpx.Commit
@@ -444,6 +456,43 @@ func hasCap(caps []string, c string) bool {
 	return false
 }
 
+// LogEntry is one record of go-mail's debug log: a command as the client formatted it, or a reply as the client
+// parsed it (code and message of the reply it attributes to the command before).
+type LogEntry struct {
+	ToServer bool
+	Text     string // ToServer: the command line
+	Code     int    // reply code (0: no reply was read)
+	Msg      string // reply message, lines joined with "\n"
+}
+
+type caseLogger struct {
+	mu      sync.Mutex
+	entries []LogEntry
+}
+
+func (l *caseLogger) add(lg maillog.Log) {
+	l.mu.Lock()
+	defer l.mu.Unlock()
+	if lg.Direction == maillog.DirClientToServer {
+		l.entries = append(l.entries, LogEntry{ToServer: true, Text: fmt.Sprintf(lg.Format, lg.Messages...)})
+		return
+	}
+	e := LogEntry{}
+	if len(lg.Messages) == 2 {
+		if c, ok := lg.Messages[0].(int); ok {
+			e.Code = c
+		}
+		e.Msg = fmt.Sprint(lg.Messages[1])
+	} else {
+		e.Msg = fmt.Sprintf(lg.Format, lg.Messages...)
+	}
+	l.entries = append(l.entries, e)
+}
+func (l *caseLogger) Debugf(lg maillog.Log) { l.add(lg) }
+func (l *caseLogger) Infof(lg maillog.Log)  {}
+func (l *caseLogger) Warnf(lg maillog.Log)  {}
+func (l *caseLogger) Errorf(lg maillog.Log) {}
+
 // session is one connection of a case: its own scripted server and the tracked client end.
 type session struct {
 	srv  *smtpx.Server
@@ -452,6 +501,7 @@ type session struct {
 
 // multiDialer gives every dial of the case a fresh server running the case's script.
 type multiDialer struct {
+	logger   *caseLogger
 	c        *Case
 	mu       sync.Mutex
 	sessions []*session
@@ -482,7 +532,7 @@ func newClient(c *Case, d *multiDialer) (*mail.Client, error) {
 		policy = mail.TLSMandatory
 	}
 	opts := []mail.Option{mail.WithTLSPolicy(policy), mail.WithTLSConfig(clientTLS), mail.WithDialContextFunc(d.Dial),
-		mail.WithTimeout(20 * time.Second), mail.WithHELO(HeloName)} // no script of this engine stalls; the timeout only has to survive a loaded machine
+		mail.WithTimeout(20 * time.Second), mail.WithHELO(HeloName), mail.WithLogger(d.logger), mail.WithDebugLog()} // no script of this engine stalls; the timeout only has to survive a loaded machine
 	if c.Ret != "" {
 		opts = append(opts, mail.WithDSNMailReturnType(mail.DSNMailReturnOption(c.Ret)))
 	}
@@ -616,7 +666,7 @@ func RunProgram(c *Case) []SubRun {
 func RunCase(c *Case) *Result {
 	res := &Result{ResetOK: "-"}
 	prerender(c, res)
-	d := &multiDialer{c: c}
+	d := &multiDialer{c: c, logger: &caseLogger{}}
 	cl, err := newClient(c, d)
 	if err != nil {
 		res.Err = err
@@ -690,6 +740,8 @@ func RunCase(c *Case) *Result {
 		sess = d.sessions[0]
 	}
 	collect(res, sess, msgs)
+	res.Log = append([]LogEntry(nil), d.logger.entries...)
+	res.HasLog = true
 	return res
 }
 
@@ -702,7 +754,7 @@ func runTwoClients(c *Case) []SubRun {
 	r1, r2 := &Result{ResetOK: "-"}, &Result{ResetOK: "-"}
 	prerender(&c1, r1)
 	prerender(&c2, r2)
-	d := &multiDialer{c: c}
+	d := &multiDialer{c: c, logger: &caseLogger{}}
 	cl, err := newClient(c, d)
 	if err != nil {
 		r1.RetKind, r2.RetKind = "newclient:"+err.Error(), "newclient:"+err.Error()
